@@ -3,6 +3,7 @@ C13 layers for .itp (read_itp) and .map (read_backmapping_file) files.
 Same scheme as the .ff layers: chunks carry their text and their declared content.
 """
 import itertools
+import os
 
 from mc import common
 from mc.common import Acc
@@ -335,13 +336,13 @@ def work_items(kind, items, acc):
 
 
 def run_layers(ctx):
-    max_len = 3 if ctx.quick else 4
+    max_len = 3 if ctx.quick else int(os.environ.get('VERIF_C13_LEN', '6'))
     seqs = [s for n in range(1, max_len + 1) for s in itertools.product(ITP_CHUNKS, repeat=n)]
     acc = Acc()
     for part in common.pmap(c13.work, [('itp', chunk) for chunk in common.chunked(seqs, 8)]):
         acc += part
     ctx.layer('itp-sequences', acc)
-    fseqs = [s for n in range(1, (2 if ctx.quick else 3) + 1) for s in itertools.product(ITP_CHUNKS, repeat=n)]
+    fseqs = [s for n in range(1, (2 if ctx.quick else 4) + 1) for s in itertools.product(ITP_CHUNKS, repeat=n)]
     acc = Acc()
     for part in common.pmap(c13.work, [('itp-fault', [s]) for s in fseqs]):
         acc += part
